@@ -8,10 +8,17 @@ COMMON_KANI = [
     "unwinding assertions on: a too-small loop bound is reported as inconclusive, never as success",
 ]
 
+COMMON_MIR = [
+    "E1: symbolic execution of rustc's MIR (-Zunpretty=mir, regenerated from /repo on every run) by /verif/lib/uv/mirsym; integers are 64-bit bit-vectors, overflow checks kept as panic exits",
+    "std callees are replaced by summaries listed in lib/uv/mirsym/builtins.py (Vec, Option/Result, BTreeMap over a harness-fixed number of entries, atomics as sequentially consistent cells, Mutex as an atomic block); an unknown callee on any path makes the unit inconclusive",
+    "formatting calls are opaque (message text outside the claim); MIR cleanup (unwind) blocks are not executed",
+]
+
 PROPS = {
     "C03": {
+        "mirsym": ["teardown", "teardown_wrappers"],
         "bounds": {"quick": "CallCounter::verify: all 2^64 x 2^64 x 3 (minimum, actual, exactness); FnMocker::verify: 2 patterns, arbitrary counters; teardown: method table iteration unrolled to <=3"},
-        "assumptions": COMMON_KANI,
+        "assumptions": COMMON_KANI + COMMON_MIR,
         "outside": ["rendered message text", "minimum+1 overflow for n_times(usize::MAX).then()"],
     },
     "C01": {
@@ -30,5 +37,24 @@ PROPS = {
         "bounds": {"quick": "owner lookup and one ordered step: 3 patterns of the called method with arbitrary increasing disjoint 64-bit slot ranges (empty ranges allowed), arbitrary global index, arbitrary prior counts"},
         "assumptions": COMMON_KANI + ["std::thread::current()/panicking() replaced by the overlay's std_shim (Kani cannot compile thread::current())"],
         "outside": ["more than 3 ordered patterns per method in one step harness"],
+    },
+    "C09": {
+        "mirsym": ["teardown", "drop_flags", "teardown_wrappers"],
+        "bounds": {"quick": "one lifecycle step from an arbitrary state: all values of (original_instance, torn_down, verify_in_drop, panicking(), strong_count (64-bit), thread equality, recorded-error count, per-method error counts); method table M=0..2 (thorough 3)"},
+        "assumptions": COMMON_MIR + ["Arc::strong_count, thread::panicking(), ThreadId comparison are environment variables (arbitrary values within their contracts)",
+                                     "FnMocker::verify summarised at this level as 'appends n_i >= 0 errors' (decided separately under C03)"],
+        "outside": ["real Arc reference counting and real thread identity (axioms; exercised only by the native replay)", "event sequences are covered inductively: one step from an arbitrary state"],
+    },
+    "C11": {
+        "mirsym": ["teardown", "drop_flags", "locked_closures"],
+        "bounds": {"quick": "all inputs of teardown/Drop (see C09); every MutexIsh::locked call site in the crate's MIR"},
+        "assumptions": COMMON_MIR + ["thread::panicking() is an environment boolean; a panic is a terminal outcome of the path (unwinding is not executed symbolically)"],
+        "outside": ["executing an unwind (the native replay does: child processes must exit 101, not SIGABRT)", "after a caught user panic the mock remains usable: argued from C01/C04 step facts"],
+    },
+    "C08": {
+        "mirsym": ["induce_panic", "teardown", "teardown_wrappers"],
+        "bounds": {"quick": "induce_panic / handle_error / Continuation::report from an arbitrary state with any error value; teardown for all inputs (see C09)"},
+        "assumptions": COMMON_MIR + ["the Mutex is an atomic block (its internals are trusted)"],
+        "outside": ["errors racing from several threads", "message text", "the no_std `panicked` flag"],
     },
 }
